@@ -415,3 +415,27 @@ func H_C13_non_finite_floats() {
 	verifAssert(o.Dict()["a"] == any(inf) && o.NativeDict()["a"] == any(inf), "Dict and NativeDict hold exactly what Get returns")
 	verifReach("end")
 }
+
+// keys are arbitrary strings: two-byte keys whose bytes may be path characters ('.', '#'), quotes or
+// anything else keep their spelling through NewObjectFrom and every export, at the top and one level down
+func H_C13_keys_of_several_bytes() {
+	verifBound("KEYBYTES", 2)
+	k := hBytesStr(2)
+	x, y := nondetInt(), nondetInt()
+	src := map[string]any{k: x, "n": map[string]any{k: y}, "l": []any{map[string]any{k: nil}}}
+	o := NewObjectFrom(src)
+	nd := o.NativeDict()
+	in1, ok1 := nd["n"].(map[string]any)
+	l1, ok2 := nd["l"].([]any)
+	ok := len(nd) == 3 && nd[k] == any(x) && ok1 && ok2 && len(in1) == 1 && in1[k] == any(y) && len(l1) == 1
+	if ok {
+		in2, ok3 := l1[0].(map[string]any)
+		v, has := in2[k]
+		ok = ok3 && len(in2) == 1 && has && v == nil
+	}
+	verifAssert(ok, "NewXFrom(native).NativeX reproduces the content of the input")
+	d := o.Dict()
+	verifAssert(len(d) == 3 && d[k] == any(x) && o.KeyExists(k) && o.GetObject("n").KeyExists(k) && o.Count() == 3, "Dict and NativeDict hold exactly what Get returns")
+	verifAssert(len(src) == 3 && src[k] == any(x), "NewXFrom does not modify its input")
+	verifReach("end")
+}
